@@ -565,14 +565,14 @@ def shapes_for(tier, rng):
         for kind in ("dense", "ones", "zero"):
             sh.append((rng.choice([1, 4, 17]), n, kind))
     if tier != "quick":
-        for _ in range(1500):
+        for _ in range(5000):
             sh.append((rng.randint(1, 40), rng.randint(1, 700), rng.choice(kinds)))
     return sh
 
 
 def run(res, tier, seed):
     res.cov["rule"] = ("PNG round trip through the real library (mzd_to_png then mzd_from_png) for every column count 1..200 (every "
-                       "residue mod 64 and mod 8, several times; thorough: 1..520 and 1500 random shapes to 700 columns), compression "
+                       "residue mod 64 and mod 8, several times; thorough: 1..520 and 5000 random shapes to 700 columns), compression "
                        "levels 0..9, with and without comment, content classes dense/ones/zero/ends/single/sparse, in an ASan+UBSan "
                        "build and the host build; the raw row bytes and IHDR found in the file (plain libpng, no transformations) "
                        "compared with png_write of the model; PNG files of every legal bit depth x colour type x interlace written "
@@ -601,9 +601,9 @@ def run(res, tier, seed):
             for w in ([1, 7, 8, 9, 63, 64, 65, 100] if quick else list(range(1, 140, 3))):
                 combos.append((w, 1 + (w % 3), depth, ct, il))
     r.png_foreign(asan, combos)
-    r.png_damaged(asan, 10 if quick else 40, 40 if quick else 150)
-    r.jcf(asan, 24 if quick else 200)
-    r.from_str(asan, 150 if quick else 1500)
+    r.png_damaged(asan, 10 if quick else 100, 40 if quick else 250)
+    r.jcf(asan, 24 if quick else 800)
+    r.from_str(asan, 150 if quick else 6000)
 
 
 def parse_replay(txt):
